@@ -231,12 +231,16 @@ func buildCorpus(caseFiles []string, repo string, tier string, rng *rand.Rand) (
 			items = append(items, item{Name: fmt.Sprintf("jpeg:extra-icc%d", nch), Fmt: "jpeg", Data: d, L: l, HasICC: true, Well: true})
 		}
 	}
-	// JPEG: one comment of every size from 65,470 to 65,533 bytes ahead of the scan: the end of what is
-	// needed lands at every offset around 64 KiB (and around a buffer of any nearby size)
-	for n := 65470; n <= 65533; n++ {
-		segs := []gen.JSeg{gen.SOI(), gen.JFIF(), gen.SOF(0xC0, 8, 21, 34, gen.StdComps(3, 0x22)), gen.COM(gen.Payload(n, uint32(n), true)),
-			gen.DQT(0), gen.DHT(0, 0), gen.SOS(3, gen.EntropyBytes(120, 5)), gen.EOI()}
-		d, l := gen.BuildJPEG(segs)
+	// JPEG: one comment sized so that the end of what is needed (the scan header) lands on each of the 64
+	// offsets just past 64 KiB: a reader whose buffer is a little larger than 64 KiB then fills it twice
+	comFile := func(n int) ([]byte, gen.Layout) {
+		return gen.BuildJPEG([]gen.JSeg{gen.SOI(), gen.JFIF(), gen.SOF(0xC0, 8, 21, 34, gen.StdComps(3, 0x22)), gen.COM(gen.Payload(n, uint32(n), true)),
+			gen.DQT(0), gen.DHT(0, 0), gen.SOS(3, gen.EntropyBytes(120, 5)), gen.EOI()})
+	}
+	_, l0 := comFile(65000)
+	for target := 65537; target <= 65600; target++ { // where the scan header ends: just past 64 KiB
+		n := 65000 + target - l0.PixStart
+		d, l := comFile(n)
 		c := concrete.Case{Fmt: "jpeg"}
 		if dd, ll, ok := bigTail(c, concrete.Built{Data: d, Layout: l}, 1<<20); ok {
 			items = append(items, item{Name: fmt.Sprintf("jpeg:extra-com%d+big", n), Fmt: "jpeg", Data: dd, Tail: 1 << 20, L: ll, Well: true})
